@@ -1821,3 +1821,86 @@ Example overlap_checker_rejects_directed :
      (map (fun x => if fst (fst x) =? 3 then (fst x, firstn 2 (snd x)) else x) (c_calls c)))
   = ["announce:missing"]%string.
 Proof. vm_compute. reflexivity. Qed.
+
+(* ================= overlap checker, clause by clause, arbitrary schedules ================= *)
+(* ---------- linking the schedule, its compiled steps and its windows ---------- *)
+Lemma until_park_sub cand : forall s e, In e (snd (until_park s cand)) -> In e cand.
+Proof.
+  induction cand as [|e0 r IH]; intros s e; [intros []|]. cbn [until_park].
+  destruct (is_nil (announces (snd (sstep s e0)))).
+  - specialize (IH (fst (sstep s e0)) e). destruct (until_park (fst (sstep s e0)) r) as [s' done]. cbn [snd] in *.
+    intros [H|H]; [left; exact H|right; apply IH, H].
+  - cbn [snd]. intros [H|[]]. left; exact H.
+Qed.
+
+Lemma compile_sadd l : forall s c p lk ann, In (SAdd c p lk ann) (compile s l) -> In (AStart c p lk ann) l.
+Proof.
+  induction l as [|a l IH]; intros s c p lk ann; [intros []|]. cbn [compile]. intros H. apply in_app_or in H.
+  destruct H as [H|H]; [|right; eapply IH; exact H]. left.
+  destruct a as [d q lk' ann'|d|e]; cbn [act_steps] in H.
+  - apply until_park_sub in H. cbn [In] in H.
+    destruct H as [H|[H|[H|[H|[H|[]]]]]]; try discriminate. inversion H; subst. reflexivity.
+  - apply until_park_sub in H. cbn [In] in H. destruct H as [H|[H|[]]]; discriminate.
+  - cbn [snd In] in H. destruct H as [H|[]]; discriminate.
+Qed.
+
+Definition win_from (l : list action) (w : win) : Prop := In (AStart (w_id w) (w_peer w) (w_lk w) (w_ann w)) l.
+
+Lemma windows_from l : forall A ws w, In w (fst (windows A ws l)) ->
+  (exists w0, In w0 ws /\ w_id w0 = w_id w /\ w_peer w0 = w_peer w /\ w_lk w0 = w_lk w /\ w_ann w0 = w_ann w)
+  \/ win_from l w.
+Proof.
+  induction l as [|a l IH]; intros A ws w; cbn [windows fst].
+  - intros H. left. exists w. auto.
+  - intros H. apply IH in H. destruct H as [[w0 [Hin Heq]]|H]; [|right; right; exact H].
+    apply in_map_iff in Hin. destruct Hin as [w1 [E Hin]].
+    assert (Heq1 : w_id w1 = w_id w /\ w_peer w1 = w_peer w /\ w_lk w1 = w_lk w /\ w_ann w1 = w_ann w).
+    { destruct (acts_on (w_id w1) a || existsb (acts_on (w_id w1)) l); subst w0; cbn in Heq; exact Heq. }
+    clear E Heq w0.
+    destruct a as [c p lk ann|c|e]; try (left; exists w1; split; assumption).
+    destruct (existsb (fun w2 => w_id w2 =? c) ws); [left; exists w1; split; assumption|].
+    apply in_app_or in Hin. destruct Hin as [Hin|[<-|[]]]; [left; exists w1; split; assumption|].
+    right. left. cbn in Heq1. destruct Heq1 as [<- [<- [<- <-]]]. reflexivity.
+Qed.
+
+Lemma start_unique l : NoDup (started_calls l) -> forall c p lk ann p' lk' ann',
+  In (AStart c p lk ann) l -> In (AStart c p' lk' ann') l -> p = p' /\ lk = lk' /\ ann = ann'.
+Proof.
+  induction l as [|a l IH]; intros Hn c p lk ann p' lk' ann'; [intros []|].
+  assert (Hin : forall q k n, In (AStart c q k n) l -> In c (started_calls l)).
+  { intros q k n H. unfold started_calls. apply in_flat_map. exists (AStart c q k n). split; [exact H|left; reflexivity]. }
+  intros [H1|H1] [H2|H2].
+  - subst a. inversion H2; auto.
+  - subst a. cbn in Hn. inversion Hn; subst. exfalso. eauto.
+  - subst a. cbn in Hn. inversion Hn; subst. exfalso. eauto.
+  - assert (Hn' : NoDup (started_calls l)) by (destruct a; cbn in Hn; [inversion Hn; assumption|exact Hn|exact Hn]).
+    exact (IH Hn' c p lk ann p' lk' ann' H1 H2).
+Qed.
+
+Lemma In_announces t recs eff : In (t, recs) (announces eff) -> In (Announce t recs) eff.
+Proof.
+  unfold announces. rewrite in_flat_map. intros [e [He Hin]].
+  destruct e; cbn in Hin; try contradiction. destruct Hin as [Hin|[]]. inversion Hin; subst. exact He.
+Qed.
+
+(* SELF: no call of the step model ever sends the newcomer its own record, whatever the schedule *)
+Theorem overlap_self_accepts_model acts w :
+  NoDup (started_calls acts) -> In w (fst (windows abs_init [] acts)) ->
+  let eff := call_effects (w_id w) (compile sinit acts) in
+  existsb (fun r => fst r =? p_addr (w_peer w))
+          (flat_map snd (filter (fun m => peer_eqb (fst m) (w_peer w)) (announces eff))) = false.
+Proof.
+  intros Hn Hw eff. apply existsb_none. intros [a u] Hin. cbn [fst].
+  apply in_flat_map in Hin. destruct Hin as [[t recs] [Hm Hr]]. cbn [snd] in Hr.
+  apply filter_In in Hm. destruct Hm as [Hm Ht]. cbn [fst] in Ht. apply peer_eqb_eq in Ht. subst t.
+  apply In_announces in Hm. apply step_sound in Hm.
+  destruct Hm as [p [lk [ann [l1 [l2 [E Hcases]]]]]].
+  assert (Hs : In (SAdd (w_id w) p lk ann) (compile sinit acts)) by (rewrite E; apply in_or_app; right; left; reflexivity).
+  apply compile_sadd in Hs.
+  destruct (windows_from acts abs_init [] w Hw) as [[w0 [[] _]]|Hf].
+  destruct (start_unique acts Hn _ _ _ _ _ _ _ Hs Hf) as [Ep _]. subst p.
+  destruct Hcases as [[_ [_ Hrec]]|[Hrole [u' [_ [_ [pre [post [_ [_ Hb]]]]]]]]].
+  - destruct (Hrec a u Hr) as [Hne _]. apply N.eqb_neq. exact Hne.
+  - exfalso. destruct (wf_srun pre) as [_ [HB _]].
+    assert (Hb' : p_role (w_peer w) = ROLE_BIDDER) by (apply HB; exact Hb). rewrite Hrole in Hb'. discriminate.
+Qed.
